@@ -458,12 +458,20 @@ NotifyE ==
 
 CallbackB ==
   /\ IsEvent("CallbackB") /\ Ev.c \notin DOMAIN cbs
-  /\ cbs' = [c \in DOMAIN cbs \cup {Ev.c} |-> IF c = Ev.c THEN [id |-> "", st |-> "open", ctxend |-> FALSE, reply |-> "-", stoppedAtB |-> stopped] ELSE cbs[c]]
+  /\ cbs' = [c \in DOMAIN cbs \cup {Ev.c} |-> IF c = Ev.c THEN [id |-> "", st |-> "open", ctxend |-> FALSE, reply |-> "-", stoppedAtB |-> stopped, taken |-> FALSE, late |-> FALSE] ELSE cbs[c]]
+  /\ UNCHANGED <<conc, push, mem, units, rq, used, running, stopped, pend, causes, cancelOK, hcanc, notes, waitRet, rdDone, sendBad, stopOpen>>
+
+\* The reader has handed a reply to the callback that bears its id (the code's critical section, hook srv.cbreply): the
+\* record has been processed by then, and from here on the reply is what Callback returns - a context that ends later is late.
+CbTaken ==
+  /\ IsEvent("CbTaken")
+  /\ Imp("C09", \E c \in DOMAIN cbs : cbs[c].id = Ev.id /\ cbs[c].reply \in DOMAIN mem)
+  /\ cbs' = [c \in DOMAIN cbs |-> IF cbs[c].id = Ev.id /\ cbs[c].reply \in DOMAIN mem /\ cbs[c].st = "sent" THEN [cbs[c] EXCEPT !.taken = TRUE] ELSE cbs[c]]
   /\ UNCHANGED <<conc, push, mem, units, rq, used, running, stopped, pend, causes, cancelOK, hcanc, notes, waitRet, rdDone, sendBad, stopOpen>>
 
 CtxEnd ==
   /\ IsEvent("CtxEnd")
-  /\ cbs' = IF Ev.c \in DOMAIN cbs THEN [cbs EXCEPT ![Ev.c].ctxend = TRUE] ELSE cbs
+  /\ cbs' = IF Ev.c \in DOMAIN cbs THEN [cbs EXCEPT ![Ev.c].ctxend = TRUE, ![Ev.c].late = cbs[Ev.c].taken] ELSE cbs
   /\ UNCHANGED <<conc, push, mem, units, rq, used, running, stopped, pend, causes, cancelOK, hcanc, notes, waitRet, rdDone, sendBad, stopOpen>>
 
 CallbackE ==
@@ -479,7 +487,7 @@ CallbackE ==
      /\ Imp("C09", Ev.res = "rpcerror" => /\ c.reply \in DOMAIN mem /\ mem[c.reply].rerr
                                           /\ Ev.tag = c.reply /\ Ev.code = -7)
      \* the context's own error: its context ended, the issuing handler was cancelled, or the server stopped
-     /\ Imp("C09", Ev.res = "ctxerr" => (c.ctxend \/ stopped \/ hcanc # {}))
+     /\ Imp("C09", Ev.res = "ctxerr" => ((c.ctxend /\ ~c.late) \/ stopped \/ hcanc # {}))
      /\ Imp("C09", Ev.res = "error" => (sendBad \/ stopped))
      /\ Imp("C09", Ev.res \in {"reply", "rpcerror", "ctxerr"} => c.st = "sent")
   /\ cbs' = [cbs EXCEPT ![Ev.c].st = "ret"]
@@ -614,7 +622,7 @@ Terminal == /\ l <= Len(Trace) /\ Ev.ev \in {"Crash", "Deadlock", "Leak"}
 
 Next == \/ Reset \/ Start \/ RecvMsg \/ Enqueue \/ Dequeue \/ Dispatch \/ HStart \/ HCancel \/ HExit
         \/ SendOK \/ SendFailed \/ StopB \/ StopE \/ RecvErr \/ ChClose \/ CancelB \/ CancelE \/ BaseEnd
-        \/ NotifyB \/ NotifyE \/ CallbackB \/ CtxEnd \/ CallbackE \/ WaitStatus \/ Quiescent
+        \/ NotifyB \/ NotifyE \/ CallbackB \/ CtxEnd \/ CbTaken \/ CallbackE \/ WaitStatus \/ Quiescent
         \/ SendFailArmed \/ Final \/ BarrierPass \/ Ignored \/ Terminal \/ QuiescentOp \/ SendHealed \/ BufferReused
 
 Spec == Init /\ [][Next]_vars
